@@ -336,3 +336,58 @@ def jouguet_params(r):
     coef = (r.uniform(1, 5), r.uniform(0, 2) * Tn ** 4, r.uniform(-1, 1) * r.choice((0.0, 1.0, 5.0, 30.0)), r.uniform(2, 8), r.uniform(0.1, 2),
             r.choice((0.7, 1.5, 3.0, 5.0)))
     return Tn, TMaxLow, TMaxHydro, coef
+
+
+# ---------------------------------------------------------------- fastestDeflag / slowestDeton (Model.Window)
+
+def scripted_window(kind, p):
+    """Runs the REAL Hydrodynamics.fastestDeflag / slowestDeton on an object whose findMatching and root_scalar are stubs installed
+    from outside.  Returns the line Driver/WindowF prints."""
+    from types import SimpleNamespace
+    import WallGo.hydrodynamics as H
+    h = H.Hydrodynamics.__new__(H.Hydrodynamics)
+    h.atol, h.rtol = 1e-10, 1e-6
+
+    def stub_root(f, bracket=None, **kw):
+        a, b = bracket
+        if f(a) * f(b) > 0:
+            raise ValueError("f(a) and f(b) must have different signs")      # what brentq does
+        return SimpleNamespace(root=a + fr * (b - a), converged=True)
+    saved = H.root_scalar
+    H.root_scalar = stub_root
+    try:
+        if kind == "deflag":
+            vJ, vMin, vLow, tml, tmh, p0, p1, p2, m0, m1, m2, fr, el, eh = p
+            h.vJ, h.vMin, h.vBracketLow, h.TMaxLowT, h.TMaxHighT = vJ, vMin, vLow, tml, tmh
+            h.findMatching = lambda v: (None, None, p0 + p1 * v + p2 * (v * v), m0 + m1 * v + m2 * (v * v))
+            h.thermodynamics = SimpleNamespace(freeEnergyLow=SimpleNamespace(maxPossibleTemperature=[tml, bool(el)]),
+                                               freeEnergyHigh=SimpleNamespace(maxPossibleTemperature=[tmh, bool(eh)]))
+            h.doesPhaseTraceLimitvmax = ["untouched", "untouched"]
+            v = H.Hydrodynamics.fastestDeflag(h)
+
+            def so(x):
+                return "-" if x == "untouched" else ("1" if x else "0")
+            return f"{C.f2b(v)} high={so(h.doesPhaseTraceLimitvmax[0])} low={so(h.doesPhaseTraceLimitvmax[1])}"
+        vJ, tml, m0, m1, m2, fr = p
+        h.vJ, h.TMaxLowT = vJ, tml
+        h.findMatching = lambda v: (None, None, 0.0, m0 + m1 * v + m2 * (v * v))
+        return str(C.f2b(H.Hydrodynamics.slowestDeton(h)))
+    finally:
+        H.root_scalar = saved
+
+
+def window_params(r):
+    if r.random() < 0.6:
+        vJ = r.uniform(0.55, 0.85)
+        vMin, vLow = r.uniform(0.01, 0.2), 10 ** r.uniform(-6, -2)
+        m0, m1, m2 = r.uniform(0.8, 1.0), r.uniform(-0.2, 0.6), r.uniform(-0.3, 0.5)
+        p0, p1, p2 = r.uniform(1.0, 1.1), r.uniform(-0.2, 0.6), r.uniform(-0.3, 0.5)
+        tm_top = m0 + m1 * vJ + m2 * vJ * vJ
+        tp_top = p0 + p1 * vJ + p2 * vJ * vJ
+        tml = tm_top * r.choice((0.9, 0.97, 1.05, 1.3))
+        tmh = tp_top * r.choice((0.9, 0.97, 1.05, 1.3))
+        return "deflag", [vJ, vMin, vLow, tml, tmh, p0, p1, p2, m0, m1, m2, r.uniform(0.05, 0.95), r.randint(0, 1), r.randint(0, 1)]
+    vJ = r.uniform(0.55, 0.9)
+    m0, m1, m2 = r.uniform(0.8, 1.0), r.uniform(-0.5, 0.8), r.uniform(-0.5, 0.5)
+    t1 = m0 + m1 + m2
+    return "deton", [vJ, t1 * r.choice((0.8, 0.95, 1.02, 1.2, 1.5)), m0, m1, m2, r.uniform(0.05, 0.95)]
